@@ -255,6 +255,46 @@ Fixpoint hrun (st : hstate) (ops : list hop) : option hstate :=
     end
   end.
 
+(** ** Well-formed requests, as a checker (proved equivalent to [hop_pre] of
+    Mgr/HistoryProofs.v): operand slots occupied, variables in range, no
+    variable named twice, known substitution id *)
+Definition occupied_b (st : hstate) (k : N) : bool :=
+  match hslot st k with Some _ => true | None => false end.
+
+Definition hop_pre_b (st : hstate) (o : hop) : bool :=
+  let n := nlevels (h_s st) in
+  match o with
+  | HConst _ _ => true
+  | HVar _ v _ => Nat.ltb v n
+  | HNot _ a => occupied_b st a
+  | HBin _ _ a b => occupied_b st a && occupied_b st b
+  | HIte _ a b c => occupied_b st a && occupied_b st b && occupied_b st c
+  | HQuant _ _ a vars => occupied_b st a && occupied_b st vars
+  | HApplyQuant _ _ _ a b vars => occupied_b st a && occupied_b st b && occupied_b st vars
+  | HRestrict _ a cube => occupied_b st a && occupied_b st cube
+  | HNewSubst pairs =>
+    nodup_b (map fst pairs)
+    && forallb (fun p : nat * N => Nat.ltb (fst p) n && occupied_b st (snd p)) pairs
+  | HSubst _ a id =>
+    occupied_b st a && match hreg_fn (h_reg st) id with Some _ => true | None => false end
+  | HClone _ a => occupied_b st a
+  | HDrop _ => true
+  | HGc => true
+  | HAddVars _ => true
+  | HSetVarOrder order => order_ok_b n order
+  end.
+
+Fixpoint hops_pre_b (st : hstate) (ops : list hop) : bool :=
+  match ops with
+  | [] => true
+  | o :: rest =>
+    hop_pre_b st o &&
+    match hstep st o with
+    | Some st1 => hops_pre_b st1 rest
+    | None => false
+    end
+  end.
+
 (** the destination slot of a call (the only slot whose content may change) *)
 Definition hdst (o : hop) : option N :=
   match o with
